@@ -297,8 +297,9 @@ def make_contained(prog, op, variant='single'):
                 # deleting or emptying the last hunk of a band without a tail is exactly what an interrupted backup leaves
                 legal_state = role == 'hunk' and bnum is not None and (A.band_name(bnum) + '/BANDTAIL') not in st.nodes and \
                     how in ('delete', 'empty') and is_last_hunk(st, path)
-                # a band whose head is gone is no longer a version; what other versions stitched through it is outside the claim
-                foreign_head = role == 'head' and bnum != b
+                # (the head of ANOTHER band that this version stitches through is not excused: the files that came from it are lost
+                # to this version and that must be reported)
+                foreign_head = False
                 if r.variant == 0 and isinstance(before[b], list) and not tail_removed and not legal_state and not foreign_head:
                     aft = {p: parts for p, k, parts in after[b]} if isinstance(after.get(b), list) else {}
                     for (p, kind, parts) in before[b]:
@@ -330,7 +331,7 @@ def make_contained(prog, op, variant='single'):
                 r = B.run_backup(ex, ar, tree, B.backup_options(ex, 1000, 1 << 21, 0))
                 out['result'] = r[0] if r[0] == 'ok' else 'Err:' + variant_name(ex, r[1])
                 out['errors'] = [variant_name(ex, e) for e in ex.env['monitor'].errors][:4]
-                if how in ('delete', 'empty') and role != 'head':
+                if how in ('delete', 'empty'):
                     if r[0] != 'ok':
                         out['problems'].append('a new backup after %s was %s fails: %s' % (role, how, out['result']))
                     else:
